@@ -68,7 +68,11 @@ def checkName (b : Bool) : String := if b then "ok" else "throw:runtime_error"
 
 /-- re-tabulate the vectors (driver only): long histories stack thousands of `upd` closures; the
 values inside the sizes — the only ones read on `Inv` states — are unchanged -/
-def tab {α : Type} (n : Nat) (f : Int → α) : Int → α := ofList (f (-1)) ((State.intsUpTo n).map f)
+@[noinline] def tabOf {α : Type} (d : α) (l : Array α) : Int → α := fun i => if i < 0 then d else l.getD i.toNat d
+@[noinline] def tab {α : Type} (n : Nat) (f : Int → α) : Int → α :=
+  let l := ((State.intsUpTo n).map f).toArray
+  let d := f (-1)
+  tabOf d l
 
 def compact (s : State) : State :=
   { s with rowFirst := tab s.nRows s.rowFirst, rowLast := tab s.nRows s.rowLast,
